@@ -173,8 +173,8 @@ class World(S.WorldComponent):
                 "C01_no_crosstalk", "ppid_roundtrip"]
     mix = [("reliable", False, 2), ("reliable", True, 1), ("reorder-frag", True, 2), ("reorder-frag", False, 1),
            ("reliable-heavy-loss", False, 2), ("clean", False, 1), ("mixed-pr", False, 1), ("lifecycle", False, 1),
-           ("reuse", False, 3), ("reuse", True, 1)]
-    quick = (45, 240)
+           ("reuse", False, 3), ("reuse", True, 1), ("expiry", False, 3)]
+    quick = (54, 240)
     thorough = (360, 500)
     oracles = [S.oracle_no_crash, S.oracle_c01, oracle_c01_instants]
 
